@@ -30,6 +30,19 @@ CLAIMS = {
               "ones; patterns outside the documented forms ([seq] classes, negation) are not covered; no symlinks."),
         technique="Lean 4 proof (mutual structural induction over trees, list/glob lemmas) + differential correspondence check",
         ref="DESIGN.md §3 C14"),
+    "C15": dict(
+        text=("Kernel-decided theorems over tables regenerated from /repo on every run: for every linter command and every rule "
+              "id the code base can emit, the command's filter passes the id iff the id belongs to that linter "
+              "(command_filter_exact), commands are disjoint, the source-extracted filter predicate reproduces the behaviour "
+              "observed by probing the real CLI with synthetic violations (filter_model_matches_behaviour); language detection is "
+              "case-insensitive (proved for all suffixes), every mapped extension is recognised in any letter case, unknown types "
+              "dispatch no checker. The CLI matrix (24 file-name variants x 3 content languages x 20 commands + config "
+              "perturbations) checks own-rules-only, filter = restriction of the unfiltered run, language guards, case "
+              "insensitivity and irrelevance of other linters' sections on the real tool."),
+        note=("Ownership and supported-language tables are my reading of the docs (Lean `ownership`, `supported`). Individual rules' "
+              "language guards are observed through the matrix, not modelled one by one. str.lower() modelled for ASCII."),
+        technique="Lean 4 `decide +kernel` over regenerated finite tables + proofs about the detector model + exhaustive CLI matrix",
+        ref="DESIGN.md §3 C15"),
 }
 ALL = [f"C{n:02d}" for n in range(1, 21)]
 NOT_YET = "machinery for this property is not built yet in this revision of /verif (planned, see DESIGN.md §3); not claimed"
